@@ -884,6 +884,98 @@ func C10(c *core.Ctx) {
 		}
 	}
 
+	// ---- R10.5b one key: every access of the partial-message store in reassemblePacket
+	// (lookup, update, delete) uses the base sequence it was handed; deleting the completed
+	// message under another number (the frame's own Sequence) leaves it behind unless
+	// fragment 0 arrived last, and the store's overflow clear later wipes a message in progress
+	if ra := c.Fn("R10.5", "fw/face", "NDNLPLinkService", "reassemblePacket"); ra != nil {
+		var keys []ssa.Value
+		var at []ssa.Instruction
+		isStore := func(m ssa.Value) bool {
+			if t, ok := m.Type().Underlying().(*types.Map); ok {
+				if _, isSl := t.Elem().Underlying().(*types.Slice); isSl {
+					_, path := core.FieldPath(m)
+					return len(path) > 0
+				}
+			}
+			return false
+		}
+		core.InstrsDeep(ra, func(in ssa.Instruction) {
+			switch x := in.(type) {
+			case *ssa.Lookup:
+				if isStore(x.X) {
+					keys, at = append(keys, x.Index), append(at, in)
+				}
+			case *ssa.MapUpdate:
+				if isStore(x.Map) {
+					keys, at = append(keys, x.Key), append(at, in)
+				}
+			case *ssa.Call:
+				if b, ok := x.Call.Value.(*ssa.Builtin); ok && b.Name() == "delete" && len(x.Call.Args) == 2 && isStore(x.Call.Args[0]) {
+					keys, at = append(keys, x.Call.Args[1]), append(at, in)
+				}
+			}
+		})
+		bad := ""
+		for i, k := range keys {
+			if !(core.Strip(k) == core.Strip(keys[0]) || core.Same(k, keys[0])) {
+				bad = c.Pos(at[i])
+			}
+		}
+		c.Decide(len(keys) >= 3 && bad == "", "R10.5", "reassembly-store-one-key", p.Pos(ra.Pos()), fmt.Sprintf("%d accesses of the partial-message store, all under the same key", len(keys)), "reassemblePacket accesses the partial-message store under different keys (at "+bad+"): a message completed by a fragment other than the first is removed under the wrong number and stays in the store; with enough leftovers the overflow clear wipes a message that is still being received, which is then never delivered")
+	}
+	// ---- R10.16 what arrives with a packet is delivered with it: the PIT token and the
+	// congestion mark of the received LpPacket are copied to the packet handed up whatever the
+	// face's options say (the options govern what this face SENDS); a copy that is made only
+	// when an option flag is set drops the peer's mark on every face without that flag
+	if recvFn := c.Fn("R10.16", "fw/face", "NDNLPLinkService", "handleIncomingFrame"); recvFn != nil {
+		nHdr := 0
+		core.InstrsDeep(recvFn, func(in ssa.Instruction) {
+			for _, fld := range []string{"CongestionMark", "PitToken"} {
+				_, v, ok := storeToField(in, "Pkt", fld)
+				if !ok || core.IsNilConst(v) {
+					continue
+				}
+				nHdr++
+				gatedBy := ""
+				for d := in.Block(); d != nil && d.Idom() != nil; d = d.Idom() {
+					id := d.Idom()
+					iff, isIf := id.Instrs[len(id.Instrs)-1].(*ssa.If)
+					if !isIf || len(d.Preds) != 1 {
+						continue
+					}
+					onOpt := false
+					var walk func(v ssa.Value, n int)
+					walk = func(v ssa.Value, n int) {
+						if n > 4 {
+							return
+						}
+						if _, path := core.FieldPath(v); containsStr(path, "options") {
+							onOpt = true
+						}
+						switch y := v.(type) {
+						case *ssa.BinOp:
+							walk(y.X, n+1)
+							walk(y.Y, n+1)
+						case *ssa.UnOp:
+							walk(y.X, n+1)
+						case *ssa.Phi:
+							for _, e := range y.Edges {
+								walk(e, n+1)
+							}
+						}
+					}
+					walk(iff.Cond, 0)
+					if onOpt {
+						gatedBy = c.Pos(iff)
+					}
+				}
+				c.Decide(gatedBy == "", "R10.16", "received-header-delivered-whatever-the-options:"+fld, c.Pos(in), "the copy of the received "+fld+" does not depend on an option of the face", "handleIncomingFrame copies the received "+fld+" to the delivered packet only when a face option is set (test at "+gatedBy+"): the options say what this face sends; a "+fld+" sent by the peer is lost on every face without that flag, so the packet is not delivered together with it")
+			}
+		})
+		c.Floor("R10.16", "received link-layer headers copied to the delivered packet", nHdr, 2)
+	}
+
 	// ---- R10.9 the number of fragments is not "quotient + 1": len/size + 1 pieces of at
 	// most size bytes include an EMPTY last piece whenever size divides len — the receiver
 	// drops an empty fragment as IDLE and never completes the message. (Only this known-wrong
@@ -1257,11 +1349,15 @@ func c10FrameBuffer(c *core.Ctx) {
 						}
 					}
 				}
-				if !isC || k < maxPkt {
+				need := maxPkt
+				if lim, okL := lookupConst(p, "fw/face", "internalTransportMTU"); okL && lim > need {
+					need = lim // the internal face does not fragment and has the largest frame limit
+				}
+				if !isC || k < need {
 					bad = append(bad, c.Pos(in))
 				}
 			})
 		}
-		c.Decide(len(bad) == 0 && nStores > 0, "R10.13", "copied-frame-buffer-has-constant-full-size:"+f, at, "the buffer the frame is copied into is allocated with a constant size ≥ the maximum packet size", "the outgoing frame is assembled by copy() into NDNLPLinkService."+f+", which is allocated with a size that is not a constant ≥ "+fmt.Sprint(maxPkt)+" ("+strings.Join(bad, ", ")+"): copy stops at the end of the buffer, so once a frame is longer than the buffer was sized for (the MTU was raised since) the frame is truncated and sent")
+		c.Decide(len(bad) == 0 && nStores > 0, "R10.13", "copied-frame-buffer-has-constant-full-size:"+f, at, "the buffer the frame is copied into is allocated with a constant size ≥ the largest frame limit of any transport", "the outgoing frame is assembled by copy() into NDNLPLinkService."+f+", which is allocated with a size that is not a constant ≥ the largest frame limit of a transport (the internal face: "+fmt.Sprint(maxPkt)+" plus link-layer headers) ("+strings.Join(bad, ", ")+"): copy stops at the end of the buffer, so a frame longer than the buffer (the MTU was raised since; a near-maximum packet on the internal face, which does not fragment) is truncated and sent")
 	}
 }
